@@ -873,6 +873,16 @@ func (cx *evalCtx) call(x *ast.CallExpr) (TV, error) {
 			n.st = cx.old
 			n.inOld = true
 			return n.goExpr(x.Args[0])
+		case "final":
+			// final(p): the current value of a parameter that the function reassigns (a bare parameter name in an
+			// ensures clause means its value at entry)
+			if len(x.Args) != 1 {
+				return TV{}, fmt.Errorf("final takes one argument")
+			}
+			n := cx.sub()
+			n.varsAfter = false
+			n.useVars = true
+			return n.goExpr(x.Args[0])
 		case "prev":
 			if cx.rec == nil {
 				// at the loop head itself prev(e) == e
